@@ -55,6 +55,9 @@ pub(crate) struct CallFrame {
     /// beginning of the local stack
     pub stack_offset: u32,
     pub closure: *mut CaoLangClosure,
+    /// the function object being executed in this frame (null for the entry frame).
+    /// Keeps a closure alive for the duration of its call even if nothing else refers to it
+    pub callee: *mut CaoLangObject,
 }
 
 impl RuntimeData {
@@ -350,6 +353,24 @@ impl RuntimeData {
                     t.marker = GcMarker::Gray;
                     progress_tracker.push(t);
                 }
+            }
+        }
+        // the functions being executed and the upvalues that are still open are in use too,
+        // even if no value refers to them anymore
+        for frame in self.call_stack.iter() {
+            unsafe {
+                if let Some(t) = frame.callee.as_mut() {
+                    t.marker = GcMarker::Gray;
+                    progress_tracker.push(t);
+                }
+            }
+        }
+        unsafe {
+            let mut upvalue = self.open_upvalues;
+            while let Some(t) = upvalue.as_mut() {
+                upvalue = t.as_upvalue().map(|u| u.next).unwrap_or(std::ptr::null_mut());
+                t.marker = GcMarker::Gray;
+                progress_tracker.push(t);
             }
         }
 
